@@ -36,6 +36,11 @@ QUICK = [
     'pony.orm.dbproviders.sqlite:SQLiteProvider.acquire_lock',
     'pony.orm.dbproviders.sqlite:SQLiteProvider.set_transaction_mode',
     'pony.orm.dbapiprovider:Pool.connect',
+    # the translation itself: one translator is being built per thread, monads look up "the current translator"
+    'pony.orm.sqltranslation:SQLTranslator.__init__',
+    'pony.orm.sqltranslation:SQLTranslator.init',
+    'pony.orm.sqltranslation:SQLTranslator.dispatch',
+    'pony.orm.sqltranslation:SQLTranslator.dispatch_external',
 ]
 
 THOROUGH_EXTRA = [
